@@ -77,10 +77,31 @@ def gen_placements(ctx, n):
     out.append({"type": "_Bool", "size": 1, "signed": False, "width": 1, "lead": 0, "char": False, "tail": True})
     out.append({"type": "_Bool", "size": 1, "signed": False, "width": 1, "lead": 3, "char": True, "tail": False})
     rng.shuffle(out)
-    return out[:n] if n else out
+    out = out[:n] if n else out
+    # unions of bit-fields (every run): each member starts at bit 0 of the union whatever precedes it, so a
+    # member declared after a bit-field whose width is not a multiple of 8 must not inherit its bit position
+    uni = []
+    for tname, size, signed in TYPES:
+        for lead in (1, 3, 7, 8 * size - 1):
+            for w in sorted({1, 5, 8 * size - lead, 8 * size, rng.randint(1, 8 * size)}):
+                if 1 <= w <= 8 * size and 1 <= lead <= 8 * size:
+                    uni.append({"type": tname, "size": size, "signed": signed, "width": w, "lead": lead,
+                                "char": False, "tail": rng.random() < 0.5, "agg": "union"})
+    rng.shuffle(uni)
+    return out + (uni[:60] if ctx.quick else uni)
+
+
+def tag(i, p):
+    return "%s bf%d" % (p.get("agg", "struct"), i)
 
 
 def struct_src(i, p):
+    if p.get("agg") == "union":
+        lead_t = "unsigned char" if p["type"] == "_Bool" else p["type"]
+        fields = ["%s a:%d;" % (lead_t, p["lead"]), "%s x:%d;" % (p["type"], p["width"])]
+        if p["tail"]:
+            fields.append("%s z:%d;" % (lead_t, max(1, 8 * p["size"] - p["width"])))
+        return "union bf%d { %s };" % (i, " ".join(fields))
     fields = []
     if p["char"]:
         fields.append("char c0;")
@@ -125,10 +146,11 @@ def build(ctx, placements):
     # gcc accessor library: what C reads / writes
     csrc = [cdef]
     for i, p in enumerate(placements):
-        csrc.append("long long get%d(void *p) { return (long long)((struct bf%d *)p)->x; }" % (i, i))
-        csrc.append("unsigned long long getu%d(void *p) { return (unsigned long long)((struct bf%d *)p)->x; }" % (i, i))
-        csrc.append("void set%d(void *p, unsigned long long v) { ((struct bf%d *)p)->x = v; }" % (i, i))
-        csrc.append("int size%d(void) { return sizeof(struct bf%d); }" % (i, i))
+        t = tag(i, p)
+        csrc.append("long long get%d(void *p) { return (long long)((%s *)p)->x; }" % (i, t))
+        csrc.append("unsigned long long getu%d(void *p) { return (unsigned long long)((%s *)p)->x; }" % (i, t))
+        csrc.append("void set%d(void *p, unsigned long long v) { ((%s *)p)->x = v; }" % (i, t))
+        csrc.append("int size%d(void) { return sizeof(%s); }" % (i, t))
     cfile = os.path.join(ctx.scratch, "c02_acc_%d.c" % len(os.listdir(ctx.scratch)))
     with open(cfile, "w") as f:
         f.write("\n".join(csrc) + "\n")
@@ -142,7 +164,7 @@ def run_cases(ctx, placements, with_model=True):
     ffi, acc = build(ctx, placements)
     lines, expect = [], []
     for i, p in enumerate(placements):
-        ct = ffi.typeof("struct bf%d" % i)
+        ct = ffi.typeof(tag(i, p))
         fld = dict(ct.fields)["x"]
         size, shift, width, off = ffi.sizeof(fld.type), fld.bitshift, fld.bitsize, fld.offset
         signed = int(ffi.cast(fld.type, -1)) < 0
@@ -156,7 +178,8 @@ def run_cases(ctx, placements, with_model=True):
             # layout is C01's subject; a placement cffi lays out differently from gcc is skipped here
             ctx.count("skipped-layout-differs")
             continue
-        ptr = ffi.new("struct bf%d *" % i)
+        ptr = ffi.new(tag(i, p) + " *")
+        ctx.count("aggregate:" + p.get("agg", "struct"))
         buf = ffi.buffer(ptr)
         addr = int(ffi.cast("uintptr_t", ptr))
         for v, vclass in values_for(rng, p):
@@ -274,4 +297,17 @@ def replay(ctx, obj):
     except OverflowError:
         acc = False
     good = (acc == ok) and (not acc or ptr.x == (-1 if (case["signed"] and case["width"] == 1 and v == 1) else v))
+    # what C reads from the same storage (gcc accessor for exactly this aggregate)
+    cfile = os.path.join(ctx.scratch, "c02_replay.c")
+    with open(cfile, "w") as f:
+        f.write(src + "\nlong long get(void *p) { return (long long)((%s *)p)->x; }\n"
+                      "unsigned long long getu(void *p) { return (unsigned long long)((%s *)p)->x; }\n" % (name, name))
+    acc_lib = ctypes.CDLL(common.compile_shared(cfile, cfile[:-2] + ".so"))
+    acc_lib.get.restype, acc_lib.getu.restype = ctypes.c_longlong, ctypes.c_ulonglong
+    acc_lib.get.argtypes = acc_lib.getu.argtypes = [ctypes.c_void_p]
+    buf[:] = bytes.fromhex(case["before"])
+    addr = int(ffi.cast("uintptr_t", ptr))
+    c_read = acc_lib.get(addr) if case["signed"] else acc_lib.getu(addr)
+    print("C reads", c_read, "from the same storage; cffi reads", ptr.x)
+    good = good and int(ptr.x) == c_read
     return 0 if good else 1
